@@ -1675,7 +1675,10 @@ def select__for_each_pair(self: XPathFunction, context: ta.ContextType = None) \
     elif func.arity != 2:
         raise self.error('XPTY0004', "function arity of 3rd argument must be 2")
 
-    for item1, item2 in zip(self[0].select(context), self[1].select(context)):
+    # both sequences are evaluated first: a lazy one can have an inner focus active
+    seq1 = [x for x in self[0].select(context)]
+    seq2 = [x for x in self[1].select(context)]
+    for item1, item2 in zip(seq1, seq2):
         result = func(item1, item2, context=context)
         if isinstance(result, list):
             yield from result
